@@ -75,10 +75,14 @@ pub fn drive_dyn(run: &mut Run, s: &Desc, t: &Desc, op: &str, f: PairFn) {
     }
     let vals = source_values(s, run.tier, t.bits);
     let mut l = Local::default();
+    l.slot = vengine::crumbs::claim("custom", "custom");
     for b in &vals {
+        l.enter(&config, op, || vec![hex(b)], 0);
         let (e, o) = guarded(f, b);
         l.check(&config, op, || vec![hex(b)], 0, &e, &o);
     }
+    vengine::crumbs::release(l.slot);
+    l.slot = None;
     run.merge(&config, "values", op, vals.len() as u64, l);
 }
 
